@@ -1,6 +1,10 @@
 import RemocModel.Link.CloseInv
 import RemocModel.Link.Relay
+<<<<<<< HEAD
 import RemocModel.Link.LrClass
+=======
+import RemocModel.Link.ForwardClose2
+>>>>>>> agent-forward
 import RemocModel.Props.C01
 import RemocModel.Base.CloseProv
 import RemocModel.Base.CloseList
@@ -81,18 +85,34 @@ theorem close_classified (c : Cfg) (st st' : State) (b : Back) (bs : List Back)
     simp only [Option.some.injEq] at hs; rw [← hs]
     cases hcl : st.s.closed <;> simp [hcl]
 
-/-- once closed, no operation obtains credits any more … -/
-theorem closed_blocks_requests (c : Cfg) (st : State) (g : Bool) (h : st.s.closed = some g) :
-    step c st .request = none := by
+/-- once closed, no operation obtains credits any more — unless the sender runs with
+`override_graceful_close` (`c.ovr`, set by `chmux::forward`) and the close was graceful … -/
+theorem closed_blocks_requests (c : Cfg) (st : State) (g : Bool) (h : st.s.closed = some g)
+    (hov : c.ovr = false ∨ g = false) : step c st .request = none := by
   simp only [step]
   split
   · rfl
-  · simp [Sender.open, h]
+  · rcases hov with hov | hov <;> simp [Sender.mayRequest, Sender.open, h, hov]
 
 /-- … and an operation that needs credits fails instead of waiting -/
 theorem closed_enables_fail (c : Cfg) (st : State) (g : Bool) (x : Xfer) (h : st.s.closed = some g)
+    (hov : c.ovr = false ∨ g = false)
     (hcur : st.s.cur = some x) (hheld : st.s.held = 0) : (step c st .fail).isSome = true := by
-  simp [step, hcur, hheld, Sender.open, h]
+  rcases hov with hov | hov <;> simp [step, hcur, hheld, Sender.mayRequest, Sender.open, h, hov]
+
+/-- **Graceful-close override** (`Sender::set_override_graceful_close`, used by `chmux::forward`): a sender
+with the override keeps obtaining credits after a *graceful* close (`ReceiveClose`) and its operations do
+not fail; only a non-graceful close (`ReceiveFinish`: receiver dropped) stops it. -/
+theorem override_keeps_sending (c : Cfg) (st : State) (x : Xfer) (hov : c.ovr = true)
+    (h : st.s.closed = some true) (hcur : st.s.cur = some x) :
+    step c st .fail = none ∧
+    (st.s.held = 0 → x.want.2 ≤ st.s.pool → (step c st .request).isSome = true) := by
+  constructor
+  · simp [step, hcur, Sender.mayRequest, Sender.open, h, hov]
+  · intro hh hp
+    simp only [step, hcur]
+    rw [if_pos ⟨hh, by simp [Sender.mayRequest, h, hov], hp⟩]
+    rfl
 
 /-- messages whose transmission completed before the sender learned of the close are not affected:
 `provide` of a close notification changes neither what was emitted nor what was completed -/
@@ -167,6 +187,7 @@ def relayRun : List RLabel :=
 example : (rrun relayCfg relayCfg (rinit relayCfg relayCfg) relayRun).b.delivered = [[1, 2]] ∧
     (rrun relayCfg relayCfg (rinit relayCfg relayCfg) relayRun).a.completed = [[1, 2]] := by decide
 
+<<<<<<< HEAD
 /-! ### `rch::lr` / `rch::base`: a typed channel directly on one port (no local queue)
 
 `lr::Sender::send` = `base::Sender::send` = serialize + `chmux::Sender::send`; a value is accepted exactly
@@ -239,6 +260,263 @@ theorem lr_classification_exact (c : Cfg) (st : State) (h : Reachable c st) :
     | some g =>
       rw [hs] at hv
       cases g <;> cases hrc : st.r.closed <;> cases hrd : st.r.dropped <;> simp [hrc, hrd, lrReason] at hv ⊢
+=======
+/-! ### across `chmux::forward` at chunk granularity (`RemocModel/Link/Forward.lean`)
+
+`FReachable v ca cb f` quantifies over every schedule of origin, upstream link, forwarding loop, downstream
+link and destination: every sequence of whole sends, chunk streams (any chunking) and port batches at the
+origin, cancels at every await of the origin's sends, every `max_data_size` of the forwarder's receiver (which
+decides whether a message reaches it as `Received::Data` or `Received::Chunks`), closes and drops on either
+link, loss of either connection in any phase. -/
+
+/-- **Chunk-by-chunk forwarding is exact.**  In every reachable state
+(1) the messages whose transmission the forwarder *completed* downstream are, byte for byte and in order, a
+    prefix of the ideal reassembly (`parse none`, C01) of the upstream frames it consumed — whatever their
+    chunking, and whichever chunk streams were cancelled;
+(2) between two messages (`idle`) they are equal to it;
+(3) what the destination obtained is a prefix of the sends completed at the origin;
+(4) at quiescence of both links with the forwarder idle the destination has obtained all of them. -/
+theorem forward_chunks_exact (v : Pairing) (ca cb : Cfg) (f : Fwd) (h : FReachable v ca cb f) :
+    (∃ rest, f.b.completed ++ rest = parse none f.a.consumed) ∧
+    (f.ph = .idle → f.b.completed = parse none f.a.consumed) ∧
+    (∃ rest, f.b.delivered ++ rest = f.a.completed) ∧
+    (f.ph = .idle → f.a.chan = [] → f.a.r.queue = [] → f.b.chan = [] → f.b.r.queue = [] → pendingMsg f.b = [] →
+      f.b.delivered = f.a.completed) := by
+  obtain ⟨⟨_, _, hrel⟩, ha, hb⟩ := fjoint_reachable v ca cb f h
+  have hrc := receiver_delivers_consumed ca f.a ha
+  obtain ⟨k, hk⟩ := rel_pre _ _ _ _ _ hrel
+  have idleFacts : f.ph = .idle → f.a.partialMsg = none ∧ f.b.completed = f.a.delivered := by
+    intro hph; rw [hph] at hrel; exact hrel
+  have pend0 : f.a.partialMsg = none → pendingMsg f.a = [] := by
+    intro hp; unfold pendingMsg; rw [hp]; split <;> simp_all
+  refine ⟨⟨f.a.delivered.drop k ++ pendingMsg f.a, ?_⟩, ?_, ?_, ?_⟩
+  · rw [hrc, hk, ← List.append_assoc, List.take_append_drop]
+  · intro hph
+    obtain ⟨hp, hc⟩ := idleFacts hph
+    rw [hrc, pend0 hp, List.append_nil, hc]
+  · obtain ⟨r1, h1⟩ := delivery_exact cb f.b hb
+    obtain ⟨r2, h2⟩ := delivery_exact ca f.a ha
+    refine ⟨r1 ++ (f.a.delivered.drop k ++ r2), ?_⟩
+    rw [← List.append_assoc, h1, hk, ← List.append_assoc, List.take_append_drop, h2]
+  · intro hph a1 a2 b1 b2 b3
+    obtain ⟨hp, hc⟩ := idleFacts hph
+    rw [delivery_complete cb f.b hb b1 b2 b3, hc, delivery_complete ca f.a ha a1 a2 (pend0 hp)]
+
+/-- **A cancelled or failed upstream chunk stream never yields a completed downstream message** (seeded bug
+(b): treating `Err(Cancelled)` / `Err(ChMux)` of `recv_chunk` as end-of-message and calling `finish()`).  When
+`recv_chunk` reports `Cancelled`, or the upstream connection is lost inside the chunk loop, the forwarder
+drops its `ChunkSender`: nothing is completed, nothing more is emitted for that message, and by
+`forward_chunks_exact` (3) the destination never obtains it. -/
+theorem forward_cancelled_never_completed (v : Pairing) (ca cb : Cfg) (f f' : Fwd) :
+    (fstep v ca cb f .recvChunk = some f' → chunkOut ca f.a = some .cancelled →
+      f'.b.completed = f.b.completed ∧ f'.b.emitted = f.b.emitted ∧ f'.b.s.inMsg = false ∧ f'.ph = .idle) ∧
+    (fstep v ca cb f .upLost = some f' →
+      f'.b.completed = f.b.completed ∧ f'.b.emitted = f.b.emitted ∧ (f.ph = .chunkRecv → f'.b.s.inMsg = false) ∧
+      f'.ph = .done .errRecv) := by
+  constructor
+  · intro hs ho
+    simp only [fstep] at hs
+    split at hs
+    · split at hs
+      · simp only [ho, afterChunk] at hs
+        cases hc : step cb f.b .cancel with
+        | none => simp [hc] at hs
+        | some b' =>
+          simp only [hc, Option.map_some, Option.some.injEq] at hs
+          subst hs
+          obtain ⟨_, him, hcomp, _, hem⟩ := cancel_spec cb f.b b' hc
+          exact ⟨hcomp, hem, him, rfl⟩
+      · simp at hs
+    · simp at hs
+  · intro hs
+    simp only [fstep] at hs
+    split at hs
+    · rename_i hph
+      obtain rfl := Option.some.inj hs
+      exact ⟨rfl, rfl, by simp [hph], rfl⟩
+    · rename_i hph
+      cases hc : step cb f.b .cancel with
+      | none => simp [hc] at hs
+      | some b' =>
+        simp only [hc, Option.map_some, Option.some.injEq] at hs
+        subst hs
+        obtain ⟨_, him, hcomp, _, hem⟩ := cancel_spec cb f.b b' hc
+        exact ⟨hcomp, hem, fun _ => him, rfl⟩
+    · simp at hs
+
+/-- **End-of-stream across the forwarder.**
+(1) `forward` returns `Ok` only when the upstream port reported end-of-stream, and then it has consumed every
+    frame the origin emitted and completed downstream exactly the sends completed at the origin;
+(2) the destination is told end-of-stream only after `forward` returned (its caller then drops the downstream
+    sender: `SendFinish` travels behind everything that was relayed), and then it has obtained every message the
+    forwarder completed;
+(3) hence after an `Ok` return: exactly the origin's completed sends.
+After an error return (`ForwardError`) the destination still sees a clean end-of-stream once the forwarding task
+drops its sender: (2) holds, (3) does not — see `fwdLostRun` below. -/
+theorem forward_eos_after_all (v : Pairing) (ca cb : Cfg) (f : Fwd) (h : FReachable v ca cb f) :
+    (f.ph = .done .ok → f.a.consumed = f.a.emitted ∧ f.b.completed = f.a.completed) ∧
+    ((Out.eos ∈ f.b.outs ∨ f.b.r.finished = true) →
+      f.ph.isDone = true ∧ f.b.delivered ++ pendingMsg f.b = f.b.completed) ∧
+    ((Out.eos ∈ f.b.outs ∨ f.b.r.finished = true) → f.ph = .done .ok →
+      f.b.delivered ++ pendingMsg f.b = f.a.completed) := by
+  obtain ⟨⟨_, _, hrel⟩, ha, hb⟩ := fjoint_reachable v ca cb f h
+  have hcl := fclose_reachable v ca cb f h
+  have part1 : f.ph = .done .ok → f.a.consumed = f.a.emitted ∧ f.b.completed = f.a.completed := by
+    intro hph
+    have heos := hcl.okEos hph
+    rw [hph] at hrel
+    obtain ⟨hp, hc⟩ := hrel
+    obtain ⟨h1, h2⟩ := eos_after_all_data ca f.a ha heos
+    have pend0 : pendingMsg f.a = [] := by unfold pendingMsg; rw [hp]; split <;> simp_all
+    rw [pend0, List.append_nil] at h2
+    exact ⟨h1, by rw [hc, h2]⟩
+  have part2 : (Out.eos ∈ f.b.outs ∨ f.b.r.finished = true) →
+      f.ph.isDone = true ∧ f.b.delivered ++ pendingMsg f.b = f.b.completed := by
+    intro he
+    obtain ⟨h1, h2⟩ := eos_after_all_data cb f.b hb he
+    have fi := finv_reachable cb f.b hb
+    have hfin : Frame.finish ∈ f.b.emitted := by rw [← h1]; exact fi.eos he
+    exact ⟨hcl.dropped (fi.mem hfin), h2⟩
+  exact ⟨part1, part2, fun he hph => by rw [(part2 he).2, (part1 hph).2]⟩
+
+/-- **Close in each direction, classified.**
+(1) the forwarder closes its upstream receiver (`ReceiverClosed` to the origin) only after its downstream sender
+    was told that the destination closed or dropped its receiver;
+(2) `Ok` only at upstream end-of-stream (`recv_any` reported it, or `Finished` ended a chunk stream — reported
+    as `Cancelled` — and the next `recv_any` returned `None` at once);
+(3) `ForwardError::Send` only if the downstream connection was lost or the downstream receiver closed in a way the
+    sender does not override — with the graceful-close override `forward` sets: only if it was *dropped*
+    (`ReceiveFinish`), never because of a graceful `close()`;
+(4) `ForwardError::Recv` only if the upstream connection was lost or a port batch exceeded `max_ports`. -/
+theorem forward_close_classified (v : Pairing) (ca cb : Cfg) (f : Fwd) (h : FReachable v ca cb f) :
+    (f.a.r.closed = true → f.b.s.closed.isSome = true) ∧
+    (f.ph = .done .ok → (Out.eos ∈ f.a.outs ∨ f.a.r.finished = true)) ∧
+    (f.ph = .done .errSend → f.lostDown = true ∨ ∃ g, f.b.s.closed = some g ∧ (cb.ovr = true → g = false)) ∧
+    (f.ph = .done .errRecv → f.lostUp = true ∨ Out.tooManyPorts ∈ f.a.outs) := by
+  have hcl := fclose_reachable v ca cb f h
+  exact ⟨fun hc => hcl.seen (hcl.closeUp hc), hcl.okEos, hcl.errSend, hcl.errRecv⟩
+
+/-- **The close reaches the origin.**  Between two messages, once the downstream sender knows that its receiver
+was closed or dropped, the `Event::Closed` branch is enabled (unless it ran before); after it the upstream
+receiver is closed — `ReceiverClosed` is on its way to the origin — or had been dropped already
+(`ReceiverDropped` is), and the loop goes on relaying what the origin had sent. -/
+theorem forward_close_propagates (v : Pairing) (ca cb : Cfg) (f : Fwd) (hph : f.ph = .idle)
+    (hseen : f.closedSeen = false) (hcl : f.b.s.closed.isSome = true) :
+    ∃ f', fstep v ca cb f .closedEvt = some f' ∧ f'.closedSeen = true ∧ f'.ph = .idle ∧ f'.b = f.b ∧
+      (f'.a.r.closed = true ∨ f'.a.r.dropped = true) := by
+  refine ⟨{ f with a := (step ca f.a .close).getD f.a, closedSeen := true },
+    by simp only [fstep, hph]; rw [if_pos ⟨hseen, hcl⟩], rfl, hph, rfl, ?_⟩
+  show ((step ca f.a .close).getD f.a).r.closed = true ∨ ((step ca f.a .close).getD f.a).r.dropped = true
+  cases hs : step ca f.a .close with
+  | some a' => left; simpa [hs] using (close_spec ca f.a a' hs).2.2.2
+  | none =>
+    simp only [hs, Option.getD_none]
+    simp only [step] at hs
+    split at hs
+    · simp at hs
+    · rename_i hn
+      cases hc : f.a.r.closed <;> cases hd : f.a.r.dropped <;> simp_all
+
+/-- non-vacuity: a chunk stream of 7 bytes (above the forwarder's `max_data_size` 5, so relayed chunk by chunk)
+is cancelled at the origin after both chunks were relayed; the next message is relayed whole; then a 7-byte
+chunk stream is relayed to its end.  Downstream 7 + 0 frames were emitted for the two streams, and exactly the
+completed sends `[9]`, `[1..7]` are completed downstream and obtained by the destination. -/
+def fwdA : Cfg := { chunk := 4, limit := 16, maxData := 5, maxPorts := 8 }
+def fwdB : Cfg := { chunk := 4, limit := 16, maxData := 100, maxPorts := 8, ovr := true }
+def fwdCancelRun : List FLabel :=
+  [.up .startChunks, .up (.chunkSend [1,2,3,4,5,6,7] false), .up .request, .up .emit, .up .emit,
+   .up .muxRecv, .up .muxRecv, .recvAny, .recvAny,
+   .recvChunk, .down .request, .emit, .recvChunk, .down .request, .emit,
+   .up .cancel, .up (.startSend [9]), .up .request, .up .emit, .up .muxRecv,
+   .recvChunk, .recvAny, .down .request, .emit]
+def fwdChunkRun : List FLabel := fwdCancelRun ++
+  [.down .muxRecv, .down .muxRecv, .down .muxRecv, .down .recvAny, .down .recvAny, .down .recvAny, .down .provide,
+   .up .startChunks, .up (.chunkSend [1,2,3,4,5,6,7] false), .up .request, .up .emit, .up .emit,
+   .up (.chunkSend [] true), .up .request, .up .emit,
+   .up .muxRecv, .up .muxRecv, .up .muxRecv, .recvAny, .recvAny,
+   .recvChunk, .down .request, .emit, .recvChunk, .down .request, .emit, .recvChunk, .down .request, .emit,
+   .recvChunk, .down .request, .emit,
+   .down .muxRecv, .down .muxRecv, .down .muxRecv, .down .muxRecv,
+   .down .recvAny, .down .recvAny, .down .recvAny, .down .recvAny]
+
+example : (frun .asCoded fwdA fwdB (finit fwdA fwdB) fwdCancelRun).b.completed = [[9]] ∧
+    (frun .asCoded fwdA fwdB (finit fwdA fwdB) fwdCancelRun).b.emitted.length = 3 ∧
+    Out.cancelled ∈ (frun .asCoded fwdA fwdB (finit fwdA fwdB) fwdCancelRun).a.outs ∧
+    (frun .asCoded fwdA fwdB (finit fwdA fwdB) fwdCancelRun).ph = .idle := by decide
+
+example : (frun .asCoded fwdA fwdB (finit fwdA fwdB) fwdChunkRun).b.completed = [[9], [1,2,3,4,5,6,7]] ∧
+    (frun .asCoded fwdA fwdB (finit fwdA fwdB) fwdChunkRun).a.completed = [[9], [1,2,3,4,5,6,7]] ∧
+    (frun .asCoded fwdA fwdB (finit fwdA fwdB) fwdChunkRun).b.delivered = [[9], [1,2,3,4,5,6,7]] ∧
+    (frun .asCoded fwdA fwdB (finit fwdA fwdB) fwdChunkRun).ph = .idle := by decide
+
+/-- the origin sends one message and drops its sender; the forwarder relays it, sees end-of-stream, returns `Ok`,
+its caller drops both ports; the destination obtains the message and then end-of-stream -/
+def fwdEosRun : List FLabel :=
+  [.up (.startSend [9]), .up .request, .up .emit, .up .dropSender, .up .muxRecv, .up .muxRecv,
+   .recvAny, .down .request, .emit, .recvAny, .dropTx, .dropRx,
+   .down .muxRecv, .down .muxRecv, .down .recvAny, .down .recvAny]
+example : (frun .asCoded fwdA fwdB (finit fwdA fwdB) fwdEosRun).ph = .done .ok ∧
+    (frun .asCoded fwdA fwdB (finit fwdA fwdB) fwdEosRun).b.delivered = [[9]] ∧
+    Out.eos ∈ (frun .asCoded fwdA fwdB (finit fwdA fwdB) fwdEosRun).b.outs := by decide
+
+/-- the destination closes gracefully while a message is on its way to the forwarder: the forwarder closes its
+upstream receiver, the origin's sender learns of it (`closed = some true`), and — graceful-close override — the
+message is still relayed and obtained by the destination -/
+def fwdCloseRun : List FLabel :=
+  [.up (.startSend [9]), .up .request, .up .emit, .up .muxRecv,
+   .down .close, .down .provide, .closedEvt,
+   .recvAny, .down .request, .emit, .up .provide,
+   .down .muxRecv, .down .recvAny]
+example : (frun .asCoded fwdA fwdB (finit fwdA fwdB) fwdCloseRun).b.s.closed = some true ∧
+    (frun .asCoded fwdA fwdB (finit fwdA fwdB) fwdCloseRun).a.r.closed = true ∧
+    (frun .asCoded fwdA fwdB (finit fwdA fwdB) fwdCloseRun).a.s.closed = some true ∧
+    (frun .asCoded fwdA fwdB (finit fwdA fwdB) fwdCloseRun).b.delivered = [[9]] ∧
+    (frun .asCoded fwdA fwdB (finit fwdA fwdB) fwdCloseRun).ph = .idle := by decide
+
+/-- the upstream connection is lost while a chunked message is relayed: `forward` returns `ForwardError::Recv`,
+the `ChunkSender` is dropped, nothing is completed; when the forwarding task then drops its sender the
+destination sees a *clean* end-of-stream after a discarded partial message (what FB3 reports for bin channels) -/
+def fwdLostRun : List FLabel :=
+  [.up .startChunks, .up (.chunkSend [1,2,3,4,5,6,7] false), .up .request, .up .emit, .up .emit,
+   .up .muxRecv, .up .muxRecv, .recvAny, .recvAny, .recvChunk, .down .request, .emit,
+   .upLost, .dropTx, .down .muxRecv, .down .muxRecv, .down .recvAny, .down .recvAny]
+example : (frun .asCoded fwdA fwdB (finit fwdA fwdB) fwdLostRun).ph = .done .errRecv ∧
+    (frun .asCoded fwdA fwdB (finit fwdA fwdB) fwdLostRun).b.completed = [] ∧
+    (frun .asCoded fwdA fwdB (finit fwdA fwdB) fwdLostRun).b.delivered = [] ∧
+    (frun .asCoded fwdA fwdB (finit fwdA fwdB) fwdLostRun).b.emitted.length = 2 ∧
+    Out.eos ∈ (frun .asCoded fwdA fwdB (finit fwdA fwdB) fwdLostRun).b.outs := by decide
+
+/-- the origin drops its sender in the middle of a chunk stream: `Finished` reaches the forwarder inside its chunk
+loop, `recv_chunk` reports `Cancelled` (the `ChunkSender` is dropped, nothing is completed), the next `recv_any`
+returns `None` at once and `forward` returns `Ok` -/
+def fwdFinInStreamRun : List FLabel :=
+  [.up .startChunks, .up (.chunkSend [1,2,3,4,5,6,7] false), .up .request, .up .emit, .up .emit, .up .cancel,
+   .up .dropSender, .up .muxRecv, .up .muxRecv, .up .muxRecv, .recvAny, .recvAny,
+   .recvChunk, .down .request, .emit, .recvChunk, .down .request, .emit, .recvChunk, .recvAny]
+example : (frun .asCoded fwdA fwdB (finit fwdA fwdB) fwdFinInStreamRun).ph = .done .ok ∧
+    (frun .asCoded fwdA fwdB (finit fwdA fwdB) fwdFinInStreamRun).b.completed = [] ∧
+    Out.cancelled ∈ (frun .asCoded fwdA fwdB (finit fwdA fwdB) fwdFinInStreamRun).a.outs ∧
+    Out.eos ∉ (frun .asCoded fwdA fwdB (finit fwdA fwdB) fwdFinInStreamRun).a.outs ∧
+    (frun .asCoded fwdA fwdB (finit fwdA fwdB) fwdFinInStreamRun).a.r.finished = true := by decide
+
+/-- **Witness of finding F-FWD-1** (a run of the model as the code is, not a theorem about all runs): the
+destination receiver (buffer 4) is closed gracefully and then dropped while the forwarder holds the second chunk
+of a message and has no credits.  `ReceiveFinish` after `ReceiveClose` leaves `closed = some true` (mux.rs: the first
+notification wins), with the override the credit request is not refused, no credits will ever arrive: neither
+`fail` nor `request` nor `emit` nor the `Closed` branch is enabled — the forwarder is wedged in `chunkSend`, and the
+origin's sender has not been told anything. -/
+def fwdWedgeB : Cfg := { chunk := 4, limit := 4, maxData := 100, maxPorts := 8, ovr := true }
+def fwdWedgeRun : List FLabel :=
+  [.up (.startSend [1,2,3,4,5,6]), .up .request, .up .emit, .up .emit, .up .muxRecv, .up .muxRecv,
+   .recvAny, .recvAny, .recvChunk, .down .request, .emit, .recvChunk,
+   .down .close, .down .provide, .down .dropReceiver, .down .provide]
+example :
+    let f := frun .asCoded fwdA fwdWedgeB (finit fwdA fwdWedgeB) fwdWedgeRun
+    f.ph = .chunkSend ∧ f.b.s.closed = some true ∧ f.b.r.dropped = true ∧ f.b.s.pool = 0 ∧ f.b.back = [] ∧
+    f.a.s.closed = none ∧ f.a.r.closed = false ∧
+    (fstep .asCoded fwdA fwdWedgeB f .fail).isNone ∧ (fstep .asCoded fwdA fwdWedgeB f (.down .request)).isNone ∧
+    (fstep .asCoded fwdA fwdWedgeB f .emit).isNone ∧ (fstep .asCoded fwdA fwdWedgeB f .closedEvt).isNone := by decide
+>>>>>>> agent-forward
 
 end Remoc.Link
 
